@@ -537,6 +537,124 @@ def report(chk, sig, case, detail):
     chk.fail(sig, case, detail)
 
 
+# ---------------------------------------------------------------------------------------------------------------
+# what MUST be parsed (from the property text, independent of the code and of the model): a reader that takes the whole
+# package in (load and everything built on it) has to hand content / styles / settings / meta of the main document and of
+# every sub-document to the refusing parser.  A sub-document is a folder reached by a chain of `Object <n>/` folders that the
+# manifest lists, each with an ODF document media type - WHATEVER kind of document (text ... formula, image, templates).
+# Members outside that (folder not listed, unknown / empty media type, member not listed) may be carried opaquely.
+# ---------------------------------------------------------------------------------------------------------------
+ODF_KINDS = ['text', 'spreadsheet', 'presentation', 'graphics', 'chart', 'formula', 'image', 'text-master', 'text-web',
+             'text-template', 'spreadsheet-template', 'presentation-template', 'graphics-template', 'chart-template',
+             'formula-template', 'image-template']
+ODF_MEDIA = [u'application/vnd.oasis.opendocument.' + k for k in ODF_KINDS]
+OTHER_MEDIA = [(u'unknown', u'application/x-something-else'), (u'empty', u''), (u'missing-folder-entry', None)]
+LOADLIKE = ('load', 'UserFields.list_fields', 'UserFields.update', 'ODF2XHTML.load', 'ODF2XHTML.odf2xhtml')
+
+
+def required(ep, member, entries):
+    """must entry point `ep` hand `member` to a (refusing) parser, given the manifest entries [(path, media type)]?"""
+    if ep in ('manifestlist', 'odfmanifest'):
+        return member == MANIFEST
+    if ep == 'ODF2MoinMoin':
+        return member in (u'content.xml', u'styles.xml')
+    if member == MANIFEST:
+        return True
+    media = dict(entries)
+    if member not in media:
+        return False
+    obj, _, leaf = member.rpartition(u'/')
+    if leaf not in (u'content.xml', u'styles.xml', u'settings.xml', u'meta.xml'):
+        return False
+    if obj == u'':
+        return True
+    path = u''
+    for seg in obj.split(u'/'):
+        if not re.match(u'Object [0-9]+$', seg):
+            return False
+        path += seg + u'/'
+        if media.get(path) not in ODF_MEDIA:
+            return False
+    return True
+
+
+def object_package(tok, folder_entries, obj, leaf, kind, layout='default'):
+    """the template plus one more object folder `obj` (four parts, all listed), `leaf` of it injected;
+    folder_entries: manifest entries for the folders on the way [(path, media type)] (a media type None = no entry)"""
+    parts = [(u'content.xml', t_content('sheet')), (u'styles.xml', t_styles()), (u'meta.xml', t_meta()),
+             (u'settings.xml', t_settings())]
+    already = set(p for p, _ in MANIFEST_ENTRIES)
+    man = [(p_, mt) for p_, mt in folder_entries if mt is not None and p_ not in already]
+    man += [(obj + l, u'text/xml') for l, _ in parts]
+    mtext = t_manifest().replace(u'</manifest:manifest>', u''.join(
+        u'<manifest:file-entry manifest:full-path="%s" manifest:media-type="%s"/>' % e for e in man) + u'</manifest:manifest>')
+    mem = [(nm, d) for nm, d in template() if nm != MANIFEST]
+    mem += [(obj + l, inject(t, kind, tok, layout) if l == leaf else t) for l, t in parts] + [(MANIFEST, mtext)]
+    return mem, MANIFEST_ENTRIES + [(u'extra/' + ATT, u'text/plain')] + man
+
+
+def media_cell(chk, drv, tok, watch, ep, media_name, media, leaf, k, report_to=True):
+    obj = u'Object 7/'
+    mem, entries = object_package(tok, [(obj, media)], obj, leaf, k)
+    o = observe(ep, build(mem), tok, watch)
+    c = cls(o)
+    case = {'ep': ep, 'member': obj + leaf, 'kind': k, 'media': media_name}
+    must = required(ep, obj + leaf, entries)
+    if drv is not None:
+        files = [nm for nm, _ in mem]
+        mans = [p_ for p_, _ in entries]
+        ans = drv.ask('read %d %s %d %d %d %s %d %s' % ((EP_CODE[ep], enc_str(obj + leaf)) + KIND_FLAGS[k] + (
+            len(files), ' '.join(enc_str(f) for f in files), len(mans), ' '.join(enc_str(x) for x in mans))))
+        chk.corr()
+        got = c if c != 'forbidden' else 'forbidden:' + str(o['defused'])
+        want = {'err forbidden-entities': 'forbidden:EntitiesForbidden', 'err forbidden-external': 'forbidden:ExternalReferenceForbidden',
+                'ok clean': 'clean'}.get(ans.strip(), ans)
+        if got != want:
+            chk.corr_diff(case, got, ans, 'outcome of the cell (object folder of media type %r)' % (media,))
+    chk.count('media-cell.' + ('odf' if media in ODF_MEDIA else media_name))
+    chk.case((ep, obj + leaf, k, media_name), nontrivial=must)
+    sig = '%s:%s@object(%s):%s' % (ep, leaf[:-4], media_name, KIND_CLASS[k])
+    if o['expanded'] or o['canary']:
+        report(chk, sig, case, 'the result contains the expanded entity text / the canary')
+    elif o['touched']:
+        report(chk, sig, case, 'the external resource named by the document was opened: %s' % o['touched'][:2])
+    elif must and c != 'forbidden':
+        report(chk, sig + ':silent', case, 'the member belongs to a sub-document (folder listed with media type %r), its DOCTYPE %s, and the '
+               'call returned normally: the member was not refused (observed %s %s)' %
+               (media, 'names an external DTD subset' if KIND_FLAGS[k] == (0, 1) else 'declares entities', c, o['exc'] or ''))
+    return o
+
+
+def run_media(chk, drv):
+    """the dimension "what kind of object the folder holds": every ODF document media type, an unknown one, an empty one and a
+    folder without manifest entry x the four parts x a slice of injection kinds x the readers built on load()"""
+    watch = Watch.install()
+    tmp = tempfile.mkdtemp(prefix='c13-')
+    try:
+        tok = Tokens(chk.rng, tmp)
+        kinds = ['ent-unused', 'ent-text', 'ext-dtd-file', 'ext-param-file', 'nested', 'ext-general-file']
+        allmedia = [(k_, u'application/vnd.oasis.opendocument.' + k_) for k_ in ODF_KINDS] + OTHER_MEDIA
+        eps = list(LOADLIKE)
+        i = 0
+        for name, media in allmedia:
+            # control: the clean package with such a folder is read normally
+            mem, _ = object_package(tok, [(u'Object 7/', media)], u'Object 7/', u'content.xml', 'clean')
+            for ep in ('load', 'ODF2XHTML.odf2xhtml'):
+                o = observe(ep, build(mem), tok, watch)
+                if cls(o) != 'clean':
+                    chk.corr_diff({'ep': ep, 'media': name, 'kind': 'clean'}, cls(o) + ' ' + str(o['exc']), 'clean',
+                                  'a clean package with an object folder of this media type must be read normally')
+            for leaf in (u'content.xml', u'styles.xml', u'settings.xml', u'meta.xml'):
+                for j in range(3 if chk.tier != 'thorough' else len(kinds)):
+                    k = kinds[(i + j) % len(kinds)]
+                    for ep in (eps if chk.tier == 'thorough' else [eps[i % len(eps)]]):
+                        media_cell(chk, drv, tok, watch, ep, name, media, leaf, k)
+                    i += 1
+    finally:
+        watch.needles = []
+        shutil.rmtree(tmp, ignore_errors=True)
+
+
 def run_paths(chk, drv, numbers):
     """the parametric claim for load ("every object path"): further sub-document folders - other numbers, long names,
     nested two and three deep - all four parts; every one of them is parsed, so its faulty member must be refused"""
@@ -697,15 +815,16 @@ def run_matrix(chk, drv=None, verbose=False, only=None, prep=None):
                 report(chk, sig, case, 'the result contains the %s' % ('expanded entity text' if o['expanded'] else 'content of the canary file'))
             elif o['touched']:
                 report(chk, sig, case, 'the external resource named by the document was opened: %s' % o['touched'][:2])
-            elif parsed[(ep, m)] and c != 'forbidden':
+            elif (parsed[(ep, m)] or required(ep, m, MANIFEST_ENTRIES)) and c != 'forbidden':
                 if o['outcome'] == 'returned':
-                    report(chk, sig + ':silent', case, 'the entry point parses this member, the member\'s DOCTYPE %s, '
+                    report(chk, sig + ':silent', case, ('the entry point parses this member' if parsed[(ep, m)] else
+                           'the member belongs to a (sub-)document the entry point takes in but it is NOT handed to a parser') + ', the member\'s DOCTYPE %s, '
                              'and the call returned normally (nothing expanded, nothing opened, but no explicit exception%s)' %
                              ('names an external DTD subset' if KIND_FLAGS[k] == (0, 1) else 'declares entities',
                               '; the failure was only printed' if o['sax_failed_printed'] else ''))
                 else:
                     report(chk, sig + ':not-explicit', case, 'raised %s, which is not (and does not wrap) a defusedxml refusal' % o['exc'])
-            elif not parsed[(ep, m)] and c != 'clean':
+            elif not parsed[(ep, m)] and not required(ep, m, MANIFEST_ENTRIES) and c != 'clean':
                 chk.corr_diff(case, c, 'clean', 'member is not parsed by this entry point (malformed probe) yet the call did not return normally')
             # -- correspondence with the model's prediction
             if ans is not None:
@@ -742,6 +861,19 @@ def run(chk, replay=None):
     if replay is not None and 'input' not in replay:
         print('replay: this file records a broken obligation / correspondence without a failing input; run ./check C13')
         return 1
+    if replay is not None and 'media' in replay['input']:
+        c = replay['input']
+        watch = Watch.install()
+        tmp = tempfile.mkdtemp(prefix='c13-')
+        try:
+            tok = Tokens(chk.rng, tmp)
+            media = dict([(k_, u'application/vnd.oasis.opendocument.' + k_) for k_ in ODF_KINDS] + OTHER_MEDIA)[c['media']]
+            o = media_cell(chk, None, tok, watch, c['ep'], c['media'], media, c['member'].rpartition(u'/')[2], c['kind'])
+        finally:
+            watch.needles = []
+            shutil.rmtree(tmp, ignore_errors=True)
+        print('replay: %s -> %s' % (c, o))
+        return 1 if (chk.failures or chk.known_hits) else 0
     if replay is not None and replay['input']['member'] not in XML_MEMBERS:
         # a cell of the object-path sweep: rebuild the package from the member path
         c = replay['input']
@@ -801,5 +933,6 @@ def run(chk, replay=None):
     chk.assumptions.append('C13: the text pre-processing in front of the SAX parser (__fixXmlPart) preserves the DOCTYPE: hypothesis `Prep` '
                            'of the refusal theorems, validated on every member text of the fault matrix (%d distinct texts, every '
                            'injection kind x prolog layout)' % len(prep.seen))
+    run_media(chk, drv)
     run_paths(chk, drv, range(2, 100) if chk.tier == 'thorough' else sorted(chk.rng.sample(range(2, 100), 12)))
     return chk.finish()
